@@ -33,7 +33,7 @@ def main():
             os.makedirs(kept,exist_ok=True)
             for f in ['patch.diff','seeded_demo_test.go','notes.md']:
                 if os.path.exists(os.path.join(src,f)) and src!=kept: shutil.copy(os.path.join(src,f),kept)
-            meta={'id':sid,'property':sid[:3],'vetted':vet,
+            meta={'id':sid,'property':meta.get('property',sid[:3]),'vetted':vet,
                   'what_i_ran':'tools/vet_seed.sh: scratch worktree of /repo HEAD; git apply; go build (with and without -tags verif); full suite vs the 766 baseline tests; demo fails with the change and passes without it',
                   'needs':'see notes.md','checks':{}}
             notes=os.path.join(kept,'notes.md')
